@@ -13,6 +13,7 @@ THRESHOLDS = {
     "take_vs_give": 1e-12,
     "cached_vs_uncached": 1e-12,
     "dirichlet_row_identity": 0.5,       # boolean (exact)
+    "give_repeatable_bitwise": 0.5,      # 7 applications with the same multi-thread team give the same bits
     "coarse_cache_shape": 0.5,           # boolean
     "coarse_cache_trig": 0.0,            # bit-equal
     "coarse_cache_values": 1e-14,
